@@ -365,11 +365,102 @@ def store_stage(c):
   svc.cleanup()
 
 
+CONC_PAIRS = [('mdTrial1', 'complete1'), ('mdTrial1', 'measure1'), ('mdTrial1', 'stop1'), ('mdTrial1', 'suggestMd'),
+              ('mdStudy', 'setInactive'), ('mdStudy', 'suggestMd'), ('mdBoth', 'complete1inf'), ('mdBoth', 'earlyStop1'),
+              ('mdTrial1', 'mdBoth')]
+
+
+def _conc_job(args):
+  """Worker: every interleaving (sleep-set reduced) of a metadata write with another RPC on the same
+  record; the final stored metadata must hold, per (target, ns, key), the value of a writer that
+  returned OK (the later one if both wrote the key) and every other entry of the prefix."""
+  from vcheck import sched
+  from props import c04
+  backend, pname, na, nb = args
+  prefix = c04.PREFIXES[pname]
+  reqs = [c04.REQS[na][1], c04.REQS[nb][1]]
+  bad, n = [], 0
+  for res in sched.explore(backend, prefix, reqs, limit=3000):
+    n += 1
+    if res['deadlock'] or res['final'] is None:
+      continue
+    st0 = next((x for x in res['before']['studies'] if x['sid'] == 's'), None)
+    st = next((x for x in res['final']['studies'] if x['sid'] == 's'), None)
+    if st is None or st0 is None:
+      continue
+    # what each successful writer wrote
+    writes = []     # acknowledged: (thread, target, ns, key, value)
+    maybe = []      # algorithm deltas: written only if the algorithm was consulted (not when the pool sufficed)
+    for ti, rq in enumerate(reqs):
+      rp = res['resps'][ti] or {}
+      if rq['op'] == 'updateMetadata' and rp.get('k') == 'mdOk':
+        writes += [(ti, u['t'], u['kv'][0], u['kv'][1], u['kv'][2]) for u in rq['us']]
+      if rq['op'] == 'suggest':
+        maybe += [(ti, u['t'], u['kv'][0], u['kv'][1], u['kv'][2]) for u in rq['alg'].get('delta', [])]
+
+    def md_of(study, target):
+      if target is None:
+        return {(e[0], e[1]): e[2] for e in study['md']}
+      t = next((t for t in study['trials'] if t['id'] == target), None)
+      return None if t is None else {(e[0], e[1]): e[2] for e in t['md']}
+    problems = []
+    for target in set(w[1] for w in writes) | {None, 1, 2}:
+      new, old = md_of(st, target), md_of(st0, target)
+      if new is None or old is None:
+        continue
+      written = {}
+      for w in writes:
+        if w[1] == target:
+          written.setdefault((w[2], w[3]), set()).add(w[4])
+      optional = {}
+      for w in maybe:
+        if w[1] == target:
+          optional.setdefault((w[2], w[3]), set()).add(w[4])
+      for k, vals in written.items():
+        if new.get(k) not in vals | optional.get(k, set()):
+          problems.append('%s %s: stored %r, written %s' % ('study' if target is None else 'trial %s' % target, k, new.get(k), sorted(vals)))
+      for k, vals in optional.items():
+        if k not in written and new.get(k) not in vals | {old.get(k)}:
+          problems.append('%s %s: stored %r, neither the old value nor the algorithm\'s %s' % ('study' if target is None else 'trial %s' % target, k, new.get(k), sorted(vals)))
+      for k, v in old.items():
+        if k not in written and k not in optional and new.get(k) != v:
+          problems.append('%s %s: untouched entry changed %r -> %r' % ('study' if target is None else 'trial %s' % target, k, v, new.get(k)))
+    if problems and len(bad) < 2:
+      bad.append({'problems': problems, 'choices': res['choices'], 'events': [[t, list(e)] for t, e in res['events']], 'resps': res['resps']})
+  return {'backend': backend, 'prefix': pname, 'a': na, 'b': nb, 'schedules': n, 'bad': bad}
+
+
+def concurrent_stage(c):
+  """Not in the property's quantifier (sequences), but a lost update under concurrency is the most
+  likely way an acknowledged write disappears: every interleaving of a metadata write with a
+  read-modify-write RPC of the same study / trial."""
+  import concurrent.futures
+  import multiprocessing
+  import os
+  from props import c04
+  backends = ['ram'] if c.tier == 'quick' else ['ram', 'sqlmem']
+  jobs = [(be, p, a, b) for be in backends for p in ('A', 'C') for a, b in CONC_PAIRS]
+  ctx = multiprocessing.get_context('fork')
+  with concurrent.futures.ProcessPoolExecutor(max_workers=min(12, os.cpu_count() or 4), mp_context=ctx) as ex:
+    results = list(ex.map(_conc_job, jobs))
+  for r in results:
+    c.traces += r['schedules']
+    c.count(r['schedules'], ('conc', r['backend'], r['prefix'], r['a'], r['b']) if r['schedules'] > 2 else None, kind='concurrent-writers')
+    for b in r['bad']:
+      c.prop_fail('acknowledged-metadata-write-lost:%s|%s' % (r['a'], r['b']),
+                  'an interleaving of %s and %s (prefix %s, backend %s) loses or reverts an acknowledged metadata write: %s' % (
+                      r['a'], r['b'], r['prefix'], r['backend'], '; '.join(b['problems'])[:300]),
+                  {'backend': r['backend'], 'prefix': c04.PREFIXES[r['prefix']], 'a': c04.REQS[r['a']][1], 'b': c04.REQS[r['b']][1],
+                   'schedule': b['choices'], 'events': b['events'], 'responses': b['resps']})
+  c.coverage_extra['concurrent_writer_schedules'] = sum(r['schedules'] for r in results)
+
+
 def run(c):
   c.proof_stage()
   codec_stage(c)
   merge_stage(c)
   store_stage(c)
+  concurrent_stage(c)
   return c.finish(
       level='proof',
       rule='namespaces over the alphabet %r (non-trivial = contains ":", "\\" or an empty component); merge inputs with a duplicated (ns,key) count as non-trivial; store histories of UpdateMetadata/CreateTrial/DeleteTrial/algorithm deltas through the real service (non-trivial = contains a failing update or an algorithm-issued delta)' % ALPH,
